@@ -50,6 +50,15 @@ func zzvReadModeRef(content string, readable bool) zzvModeRef {
 	if hasRest {
 		if d, err := time.Parse("2006-01-02", rest); err == nil {
 			r.date = d
+		} else if d, err := time.Parse("2006-01-02", strings.TrimSpace(rest)); err == nil && norm(tok) == "on" {
+			// a date is plainly recorded, only the spacing is off: honouring it, or treating the whole
+			// content as "any other value" (local), are both acceptable; ignoring the date is not
+			r.date = d
+			r.modes["local"] = true
+		} else if norm(tok) == "on" {
+			// "on" followed by something that is not a date is not one of the three modes with or
+			// without a date: any other value behaves as local
+			r.modes = map[string]bool{"local": true}
 		}
 	}
 	return r
